@@ -397,6 +397,88 @@ fn contexts(out: &mut impl Write) {
     }
 }
 
+/// The idle self-loop of Batcher.tla taken many times (C08): once the idle back-off has reached its bound the
+/// specification's state no longer changes, so ANY number of further empty polls is a behaviour - the real receiver is
+/// driven through 150 of them (waits return at once), must keep asking for bounded delays, and must then still deliver.
+fn idle_marathon(out: &mut impl Write) {
+    use std::future::Future;
+    use std::task::{Context, Poll};
+    struct NoWake;
+    impl std::task::Wake for NoWake {
+        fn wake(self: Arc<Self>) {}
+    }
+    let rec = Recorder::new();
+    emit_batcher::verif::install(Some(Arc::new(RecHooks(rec.clone()))));
+    emit_batcher::verif::set_delay_scale(1_000_000); // the delays as the code computes them
+    let (sender, receiver) = emit_batcher::bounded::<Vec<i64>>(4);
+    let polls = Arc::new(std::sync::atomic::AtomicUsize::new(0));
+    let called = Arc::new(AtomicBool::new(false));
+    let finished = Arc::new(AtomicBool::new(false));
+    let panicked = Arc::new(AtomicBool::new(false));
+    let (rec2, polls2, called2, f2, p2) = (rec.clone(), polls.clone(), called.clone(), finished.clone(), panicked.clone());
+    let runner = std::thread::spawn(move || {
+        let r = std::panic::catch_unwind(std::panic::AssertUnwindSafe(|| {
+            let (rec3, rec4) = (rec2.clone(), rec2.clone());
+            let mut fut = Box::pin(receiver.exec(
+                move |d: Duration| {
+                    rec3.log(json!({"ev": "Wait", "ms": d.as_millis().min(u32::MAX as u128) as u64}));
+                    if polls2.fetch_add(1, Ordering::SeqCst) > 150 {
+                        std::thread::sleep(Duration::from_micros(200));
+                    }
+                    std::future::ready(())
+                },
+                move |batch: Vec<i64>| {
+                    rec4.log(json!({"ev": "Call", "items": batch}));
+                    rec4.log(json!({"ev": "Ret", "outcome": "ok", "rem": []}));
+                    called2.store(true, Ordering::SeqCst);
+                    std::future::ready(Ok(()))
+                },
+            ));
+            let waker = Arc::new(NoWake).into();
+            let mut cx = Context::from_waker(&waker);
+            while let Poll::Pending = fut.as_mut().poll(&mut cx) {
+                std::thread::yield_now();
+            }
+        }));
+        if r.is_err() {
+            p2.store(true, Ordering::SeqCst);
+        }
+        f2.store(true, Ordering::SeqCst);
+    });
+    let t0 = std::time::Instant::now();
+    while polls.load(Ordering::SeqCst) <= 150 && !finished.load(Ordering::SeqCst) && t0.elapsed() < Duration::from_secs(20) {
+        std::thread::sleep(Duration::from_micros(500));
+    }
+    let mut what = Vec::new();
+    set_current_item(1);
+    rec.log(json!({"ev": "SendCall", "item": 1, "kind": "send"}));
+    sender.send(1);
+    rec.log(json!({"ev": "SendRet", "item": 1, "res": "sent"}));
+    let t1 = std::time::Instant::now();
+    while !called.load(Ordering::SeqCst) && !finished.load(Ordering::SeqCst) && t1.elapsed() < Duration::from_secs(10) {
+        std::thread::sleep(Duration::from_micros(500));
+    }
+    drop(sender);
+    let t2 = std::time::Instant::now();
+    while !finished.load(Ordering::SeqCst) && t2.elapsed() < Duration::from_secs(10) {
+        std::thread::sleep(Duration::from_micros(500));
+    }
+    let hung = !finished.load(Ordering::SeqCst);
+    if hung {
+        what.push("the receiver did not terminate within 10 s of the sender being dropped after a long idle period".to_string());
+    } else {
+        let _ = runner.join();
+    }
+    if panicked.load(Ordering::SeqCst) {
+        what.push(format!("Receiver::exec panicked after {} consecutive idle polls", polls.load(Ordering::SeqCst)));
+        rec.log(json!({"ev": "RecvPanicked"}));
+    }
+    emit_batcher::verif::install(None);
+    let trace = rec.finish(4, !hung && !panicked.load(Ordering::SeqCst));
+    writeln!(out, "{}", json!({"trace": trace, "hang": hung, "what": what,
+        "case": {"context": "idle-marathon", "idle_polls": polls.load(Ordering::SeqCst)}})).unwrap();
+}
+
 fn main() {
     let args: Vec<String> = std::env::args().collect();
     let rounds: u64 = args[2].parse().unwrap();
@@ -421,4 +503,5 @@ fn main() {
         }
     }
     contexts(&mut out);
+    idle_marathon(&mut out);
 }
